@@ -107,7 +107,7 @@ def pOut : P Out
 /-- the implementation's calls up to the end marker; `panicked` = the marker is not `ok` -/
 def pImpl : Nat → List String → Option (List Out × Bool)
   | _, ["ok"] => some ([], false)
-  | _, [t] => if t.startsWith "panic:" then some ([], true) else none
+  | _, [t] => if t.startsWith "panic:" || t == "changed" then some ([], true) else none
   | 0, _ => none
   | fuel+1, ts => do
     let (o, r) ← pOut ts
@@ -164,7 +164,7 @@ def pKOut : P K8s.Out
 /-- calls up to the end marker; `ended` = the marker is not `ok` (panic or process exit) -/
 def pKImpl : Nat → List String → Option (List K8s.Out × Bool)
   | _, ["ok"] => some ([], false)
-  | _, [t] => if t.startsWith "panic:" || t == "fatal" then some ([], true) else none
+  | _, [t] => if t.startsWith "panic:" || t == "fatal" || t == "changed" then some ([], true) else none
   | 0, _ => none
   | fuel+1, ts => do
     let (o, r) ← pKOut ts
@@ -251,6 +251,13 @@ def instances (calls : List PCall) : List Nat := (calls.map (·.inst)).eraseDups
 def streamIds (calls : List PCall) (tag : Nat) : List Nat :=
   calls.filterMap (fun c => if SpecC15.tagOf c.inp == tag then c.id else none)
 
+/-- STABILITY AFTER HAND-OVER. The spec says which value an output event carries; an output
+    encodes the event whenever it likes (a batching output: in its worker, after later runs were
+    processed by the same plugin instance), so that value is a property of the event for as long
+    as the output holds it. The harness therefore reads every handed-over event a second time at
+    the end of the case and ends the result with `changed` when the two readings differ. -/
+def changed (impl : List String) : Bool := impl.getLast? == some "changed"
+
 def handle (cmd : String) (args impl : List String) : Option (String × String) :=
   match cmd with
   | "c15.join" => do
@@ -265,7 +272,9 @@ def handle (cmd : String) (args impl : List String) : Option (String × String) 
     let t := run cfg St.init items
     let m := encTrace t.outs t.fin
     let p := match pImpl (impl.length + 1) impl with
-      | some (outs, panicked) => if SpecC15.holds cfg items outs panicked then "ok" else "fail"
+      | some (outs, panicked) =>
+        if changed impl then "fail:changed"
+        else if SpecC15.holds cfg items outs panicked then "ok" else "fail"
       | none => "bad-impl"
     pure (m, p)
   | "c15.jt" => do
@@ -310,7 +319,8 @@ def handle (cmd : String) (args impl : List String) : Option (String × String) 
       | _, _ => true)
     let p := match pImpl (impl.length + 1) impl with
       | some (outs, panicked) =>
-        if !known then "fail:classifier"
+        if changed impl then "fail:changed"
+        else if !known then "fail:classifier"
         else if !SpecC15.holds tcfg.join (SpecC15.resolve tcfg (-1) mitems) outs panicked then
           (if sameBits then "fail" else "fail:classifier")
         else "ok"
@@ -343,7 +353,8 @@ def handle (cmd : String) (args impl : List String) : Option (String × String) 
     let m := unwords (t.outs.map encKOut ++ [match t.fin with | .ok _ => "ok" | .error p => panicTok p])
     let p := match pKImpl (impl.length + 1) impl with
       | some (outs, ended) =>
-        if !SpecC15K8s.holds cfg items outs ended then "fail"
+        if changed impl then "fail:changed"
+        else if !SpecC15K8s.holds cfg items outs ended then "fail"
         else if max == 0 && SpecC15K8s.contentOut outs ++ (SpecC15K8s.finalLine cfg SpecC15K8s.Line.empty items).content
             != SpecC15K8s.contentIn items then "loss"
         else "ok"
@@ -380,6 +391,7 @@ def handle (cmd : String) (args impl : List String) : Option (String × String) 
       | ["ok"] => some "ok"
       | ["stuck"] => some "stuck"
       | ["panic"] => some "panic"
+      | ["changed"] => some "changed"
       | _ => none
     -- model: every instance replayed through Join.step; outputs per stream from the spec
     let (toks, ok) := replay cfg [] calls
@@ -402,6 +414,7 @@ def handle (cmd : String) (args impl : List String) : Option (String × String) 
     let outsOK := nso == ns && (outs.zip specOuts).all (fun (a, b) => treesEq a b)
     let p := if !hyps then "fail:hypothesis" else if !order then "fail:order"
              else if fin == "panic" then "fail:panic"
+             else if fin == "changed" then "fail:changed"
              else if fin != "ok" then "fail:stuck"
              else if !outsOK then "fail:output" else "ok"
     pure (m, p)
